@@ -504,6 +504,11 @@ def _correspond_case(ck, op, call, sp, ans, stats):
         stats["loop_own_compared"] += 1
         _cmp("Loop supplement (carried outputs: common type of body result and declared argument; other outputs: the standard routine's)",
              [[k, t] for k, t in zip(out_keys(cls, call), sp["types"])], ans["loop_own"], d)
+    if "own_refines_std" in ans:
+        # the hypothesis of supplemented_refines_partial (the own rules only refine the standard answer), per call
+        stats["own_refines_std_checked"] += 1
+        if ans["own_refines_std"] is not True:
+            d.append("hypothesis of supplemented_refines_partial fails on this call: the supplement's own rules do not refine the standard routine's answer")
     if "compress_own" in ans:
         stats["compress_own_compared"] += 1
         if ans["compress_own"] == "inference":
